@@ -422,6 +422,8 @@ using CatalogueFull = TypeList<
 	std::vector<bool>, std::vector<std::string>, std::list<std::string>,
 	std::vector<Rec>, std::deque<Rec>, std::list<Rec>, std::forward_list<Rec>,
 	std::vector<VecI>, std::vector<std::optional<i16>>, std::list<std::unique_ptr<i16>>,
+	std::vector<std::optional<std::map<std::string, i16>>>, std::vector<std::shared_ptr<std::unordered_map<std::string, i16>>>,
+	std::list<std::unique_ptr<std::map<std::string, i16>>>,
 	std::array<i16, 3>, i16[3], std::bitset<3>, std::tuple<i16, std::string>,
 	std::set<i16>, std::multiset<i16>, std::unordered_set<i16>, std::unordered_multiset<i16>,
 	std::map<std::string, i16>, std::unordered_map<std::string, i16>, std::map<std::string, VecI>,
